@@ -184,6 +184,88 @@ def judge_object(cls, obj, ds, mf, stats):
     return fails
 
 
+# ------------------------------------------------------------------ exhaustive small scope (thorough tier)
+
+EXHAUSTIVE_SLICES = 16
+
+
+def exhaustive_cases():
+    """every small sample of a bounded shape: quantitative (1-4 distinct values, rows per value in {1,2,4,9}, 0 or 3 missing),
+    ordinal (2-4 levels, rows per level in {0,1,3,8}, all-0 or all-1 targets per level), categorical (2-3 categories, rows in {1,2,5},
+    0 / half / all positives, 0 or 2 missing); min_freq in a small grid"""
+    import itertools
+    for k in range(1, 5):
+        for counts in itertools.product([1, 2, 4, 9], repeat=k):
+            for n_nan in (0, 3):
+                for mf in (0.1, 0.2, 0.3, 0.5):
+                    yield ("quant", counts, n_nan, mf)
+    for k in range(2, 5):
+        for counts in itertools.product([0, 1, 3, 8], repeat=k):
+            if sum(counts) == 0:
+                continue
+            for ones in itertools.product([0, 1], repeat=k):
+                for mf in (0.1, 0.3):
+                    yield ("ord", counts, ones, mf)
+    for k in range(2, 4):
+        for counts in itertools.product([1, 2, 5], repeat=k):
+            for ones in itertools.product([0, 1, 2], repeat=k):
+                for n_nan in (0, 2):
+                    for mf in (0.1, 0.3):
+                        yield ("cat", counts, ones, n_nan, mf)
+
+
+def run_exhaustive(drv, slice_i, stats):
+    fails = []
+    for i, case in enumerate(exhaustive_cases()):
+        if i % EXHAUSTIVE_SLICES != slice_i:
+            continue
+        kind = case[0]
+        if kind == "quant":
+            _, counts, n_nan, mf = case
+            vals = [float(v) for v, c in enumerate(counts) for _ in range(c)] + [None] * n_nan
+            X = pd.DataFrame({"q0": pd.Series(vals, dtype=float)})
+            y = pd.Series([i % 2 for i in range(len(vals))])
+            ds = {"X": X, "y": y, "X_dev": None, "y_dev": None, "quantitative": ["q0"], "qualitative": [], "ordinal": [], "values_orders": {}, "target": "binary"}
+            classes = ["ContinuousDiscretizer", "QuantitativeDiscretizer"]
+        elif kind == "ord":
+            _, counts, ones, mf = case
+            levels = [f"l{j}" for j in range(len(counts))]
+            vals = [l for l, c in zip(levels, counts) for _ in range(c)]
+            yv = [o for c, o in zip(counts, ones) for _ in range(c)]
+            X = pd.DataFrame({"o0": pd.Series(vals, dtype=object)})
+            y = pd.Series(yv)
+            ds = {"X": X, "y": y, "X_dev": None, "y_dev": None, "quantitative": [], "qualitative": [], "ordinal": ["o0"], "values_orders": {"o0": levels}, "target": "binary"}
+            classes = ["OrdinalDiscretizer"]
+        else:
+            _, counts, ones, n_nan, mf = case
+            cats = fitgen.CATS[:len(counts)]
+            vals = [c_ for c_, c in zip(cats, counts) for _ in range(c)] + [None] * n_nan
+            yv = [1 if j < (0, (c + 1) // 2, c)[o] else 0 for c, o in zip(counts, ones) for j in range(c)] + [j % 2 for j in range(n_nan)]
+            X = pd.DataFrame({"c0": pd.Series(vals, dtype=object)})
+            y = pd.Series(yv)
+            ds = {"X": X, "y": y, "X_dev": None, "y_dev": None, "quantitative": [], "qualitative": ["c0"], "ordinal": [], "values_orders": {}, "target": "binary"}
+            classes = ["CategoricalDiscretizer"]
+        if y.nunique() < 2:
+            continue
+        for cls in classes:
+            try:
+                obj = fitgen.fit_discretizer(cls, ds, {"min_freq": mf})
+            except Exception as e:
+                stats["fit_errors"][type(e).__name__] = stats["fit_errors"].get(type(e).__name__, 0) + 1
+                if not isinstance(e, AssertionError):
+                    fails.append({"kind": "correspondence", "what": f"{cls} raised {type(e).__name__} on a small well-formed sample (exhaustive enumeration)",
+                                  "case": list(map(str, case)), "error": str(e)[:200]})
+                continue
+            if obj is None or not obj.features:
+                continue
+            stats["exhaustive"] = stats.get("exhaustive", 0) + 1
+            fs = judge_object(cls, obj, ds, mf, stats) + pipe.compare(drv, cls, obj, ds, mf, {}, stats["pipeline_model"])
+            for f in fs:
+                f["case"] = {"enumerated": list(map(str, case)), "class": cls}
+            fails += fs
+    return fails
+
+
 def corpus_cases():
     d = os.path.join(core.ROOT, "corpus", "C09")
     out = []
@@ -223,6 +305,12 @@ def worker(args):
     fails, sample, sigs = [], None, set()
     stats = {"cases": 0, "fl_quantiles": 0, "fl_ordinal": 0, "ordinal_judged": 0, "quant_judged": 0, "cat_judged": 0, "cont_judged": 0,
              "fit_errors": {}, "classes": {}, "pipeline_model": {}}
+    if n == -2:
+        try:
+            fs = run_exhaustive(drv, seed, stats)
+            return fs[:8], len(fs), stats, None, stats.get("exhaustive", 0)
+        finally:
+            drv.close()
     try:
         fails += kernel_selftest(drv, rng)
         fails += fl_quantiles(drv, rng, 6 * n, stats)
